@@ -30,7 +30,7 @@ type e2eCase struct {
 	ID     int    `json:"id"`
 	Seed   int64  `json:"seed"`
 	Class  string `json:"class"` // tiny | boundary | crossface | large | huge
-	World  string `json:"world"` // basic | compact | overlay | mutable
+	World  string `json:"world"` // basic | compact | overlay (MutableOverlayWorld) | mutable | layered (OverlayWorld)
 	NQ     int    `json:"nq"`
 	Mutate string `json:"mutate"` // self-test only: "drop-result" removes one ID from one logged result
 }
@@ -53,6 +53,10 @@ var verifNS = b6.Namespace("diagonal.works/verif")
 // MutableOverlayWorld.FindFeatures hands the query to the base world, where IntersectsFeature resolves its ID in the
 // BASE world: for a feature that exists only in the overlay the base half of the search is empty.
 const overlayKey = "overlay-world-resolves-intersects-feature-in-base-world"
+
+// ingest.OverlayWorld.FindFeatures hands the query to each layer separately: IntersectsFeature is resolved per layer, so
+// features of one layer that intersect a feature of the other layer are not returned.
+const layeredKey = "static-overlay-world-resolves-intersects-feature-per-layer"
 
 // the coverer ingest/tokens.go uses for features (transcribed; only used to name a covering in "tok" events and in
 // diagnoses, and every use checks that search.TokensForCovering of it reproduces the feature's real tokens)
@@ -346,10 +350,27 @@ func sortCCW(l []s2.LatLng) {
 	})
 }
 
-// buildWorld returns the world and, for an overlay, the base world underneath it.
-func buildWorld(ws *worldSpec, kind string) (b6.World, b6.World, error) {
+// buildWorld returns the world and, for the two-layer kinds, the base world underneath it and (for the static
+// overlay) the upper layer.
+func buildWorld(ws *worldSpec, kind string) (b6.World, b6.World, b6.World, error) {
+	if kind == "layered" {
+		o := &ingest.BuildOptions{Cores: 2}
+		base, err := ingest.BuildWorldFromOSM(ws.nodes, ws.ways, ws.rels, o)
+		if err != nil {
+			return nil, nil, nil, err
+		}
+		b := ingest.NewBasicWorldBuilder(o)
+		for _, f := range ws.extras {
+			b.AddFeature(f)
+		}
+		upper, err := b.Finish(o)
+		if err != nil {
+			return nil, nil, nil, err
+		}
+		return ingest.NewOverlayWorld(upper, base), base, upper, nil
+	}
 	w, base, err := buildWorld2(ws, kind)
-	return w, base, err
+	return w, base, nil, err
 }
 
 func buildWorld2(ws *worldSpec, kind string) (w b6.World, base b6.World, err error) {
@@ -579,10 +600,10 @@ func runE2E(data json.RawMessage) vh.Verdict {
 		return vh.Fail("harness-json", "bad case: %v", err)
 	}
 	rng := rand.New(rand.NewSource(c.Seed*7919 + int64(c.ID)*104729 + 17))
-	ws := genWorld(rng, c.Class, c.World == "overlay" || c.World == "mutable")
-	var w, base b6.World
+	ws := genWorld(rng, c.Class, c.World == "overlay" || c.World == "mutable" || c.World == "layered")
+	var w, base, upper b6.World
 	var err error
-	if p := vh.Catch(func() { w, base, err = buildWorld(ws, c.World) }); p != "" {
+	if p := vh.Catch(func() { w, base, upper, err = buildWorld(ws, c.World) }); p != "" {
 		return vh.Verdict{OK: false, Key: "harness-world-build-panic " + c.World, Msg: p}
 	}
 	if err != nil {
@@ -664,8 +685,14 @@ func runE2E(data json.RawMessage) vh.Verdict {
 				ftok, fcov, _ := featureTokens(features[i])
 				key := fmt.Sprintf("filter-miss query=%s feature=%s", nq.kind, id.Type)
 				if qf, ok := nq.spatial.(b6.IntersectsFeature); ok && base != nil && base.FindFeatureByID(qf.ID) == nil && base.FindFeatureByID(id) != nil {
-					// the query names a feature that exists only in the overlay and the missed feature lives in the base
+					// the query names a feature that exists only in the upper layer and the missed feature lives in the base
 					key = overlayKey
+					if upper != nil {
+						key = layeredKey
+					}
+				} else if ok && upper != nil && upper.FindFeatureByID(qf.ID) == nil && upper.FindFeatureByID(id) != nil {
+					// the query names a feature of the base and the missed feature lives in the upper layer
+					key = layeredKey
 				} else if !intersects(ftok, qtok) {
 					key = fmt.Sprintf("prefilter-miss query=%s feature=%s", nq.kind, id.Type)
 					if explainedByFaceCell(fcov, qcov, ftok) {
